@@ -182,6 +182,8 @@ type Machine struct {
 	mapOrderNondet    bool
 	twin              bool
 	pools             map[*Object][]value
+	smaps             map[*Object][][2]value
+	onces             map[*Object]bool
 	codecUnrecognised int
 	itemStart         time.Time
 	noSummaries       bool
@@ -813,6 +815,10 @@ func (m *Machine) Run(fn *ssa.Function, harness string, params map[string]int) (
 	}()
 	m.paths, m.instrs = 0, 0
 	m.pools = map[*Object][]value{}
+	m.smaps = map[*Object][][2]value{}
+	m.onces = map[*Object]bool{}
+	m.smaps = map[*Object][][2]value{}
+	m.onces = map[*Object]bool{}
 	m.monWrites = m.monWrites[:0]
 	m.codec = nil
 	m.codecUnrecognised = 0
